@@ -91,11 +91,11 @@ def run(ctx):
     ctx.rule = ("case = request sequence replayed on a fresh context; non-trivial = sequence that revisits a chunk or continues "
                 "after the last chunk was requested")
     # second family: the alphabet extended by history operations on the same context (sequential reads of 1 and 40 bytes,
-    # validate-checksums, find-valid-chunks); their own results are not judged, every chunk request still is
+    # validate-checksums, find-valid-chunks, a chunk-data request with a buffer of half the chunk's size); their own results are not judged, every chunk request still is
     xdepth = 3 if not ctx.deep else 4
     jobs = [(n, b, p, c, depth if not (ctx.deep and len(p) == 3) else 5, None, 0) for n, b, p, c in bs]
     jobs += [(n, b, p, c, xdepth, None, 1) for n, b, p, c in bs if len(p) == 3 or ctx.deep]
-    ctx.bounds["with_history_operations"] = {"depth": xdepth, "operations": "read 1, read 40, validate-checksums, find-valid-chunks"}
+    ctx.bounds["with_history_operations"] = {"depth": xdepth, "operations": "read 1, read 40, validate-checksums, find-valid-chunks, chunk data into a half-size buffer"}
     for r in core.pmap(work, jobs):
         ctx.states += r["n"]; ctx.evaluations += r["n"]; ctx.transitions += r["req"]; ctx.nontrivial += r["revisit"]
         ctx.outcomes |= r["outcomes"]
